@@ -259,9 +259,9 @@ static void disarm()
 // deterministically. (Heap memory is already filled with 0xBE by ASan's allocator.)
 __attribute__((noinline)) static void dirtyStack()
 {
-    volatile unsigned char pad[192 * 1024];
-    for (size_t i = 0; i < sizeof pad; i += 1) pad[i] = 0xAB;
-    __asm__ volatile("" ::: "memory");
+    unsigned char pad[40 * 1024];
+    memset(pad, 0xAB, sizeof pad);
+    __asm__ volatile("" ::"r"(pad) : "memory");
 }
 
 static long long g_lastCallMicros = 0, g_lastCallAlloc = 0;
@@ -400,7 +400,7 @@ static void explore(const QByteArray &in, const std::string &docId, const std::s
                 } else if (s2.ordered != s3.ordered) {
                     if (s2.sorted == s3.sorted) st->counters[C_FIX_ORDER_ONLY]++;
                     else { failLine("C02:not-fixpoint:" + fam(c.name), c.name, docId, mutDesc, in, o1, o2, o3, "sig=" + diffSig(r1, r2)); failed = true; }
-                } else if (o2.size() < 20000 && s2.maxDepth < 200) {
+                } else if (o2.size() < 20000 && s2.maxDepth < 200 && (st->counters[C_RUNS] & 7) == 0) {   // sampled: every 8th
                     // cross-check the hashed comparison with the declaration-level canonical form shared with the Lean side
                     st->counters[C_XCHECK]++;
                     if (vh::canonOfXml(o2) != vh::canonOfXml(o3)) st->counters[C_NSDECL_ONLY]++;
@@ -464,9 +464,7 @@ static void runItem(const Work &w, int itemIdx, int resumeParser, Status *st, in
         st->counters[C_KIND0 - 1]++;
         int saved = g_cfg.cpuBudget;
         if (g_docs[w.doc].id.rfind("t-", 0) == 0) g_cfg.cpuBudget = 600;
-        // quick tier: the extracted sub-elements exist to feed the parsers of embedded elements, so only parsers with a type check get
-        // them there (parsers without one still get every top-level document; thorough tier: everything to everyone)
-        explore(g_docs[w.doc].xml, g_docs[w.doc].id, "", -1, resumeParser, st, samplesLeft, "", false, g_cfg.tier == "quick" && size_t(w.doc) >= g_nTop);
+        explore(g_docs[w.doc].xml, g_docs[w.doc].id, "", -1, resumeParser, st, samplesLeft, "", false, false);
         g_cfg.cpuBudget = saved;
         break;
     }
@@ -567,9 +565,9 @@ int main(int argc, char **argv)
     if (g_cfg.workers < 1) g_cfg.workers = 1;
     if (g_cfg.workers > 32) g_cfg.workers = 32;
     bool quick = g_cfg.tier == "quick";
-    if (g_cfg.depth <= 0) g_cfg.depth = quick ? 600 : 10000;
-    if (g_cfg.perDoc < 0) g_cfg.perDoc = quick ? 1 : 24;
-    if (g_cfg.sweepShare < 0) g_cfg.sweepShare = quick ? 3 : 100;
+    if (g_cfg.depth <= 0) g_cfg.depth = quick ? 1000 : 10000;
+    if (g_cfg.perDoc < 0) g_cfg.perDoc = quick ? 4 : 24;
+    if (g_cfg.sweepShare < 0) g_cfg.sweepShare = quick ? 8 : 100;
 
     {   // registers the QXmppExportData extension parsers (roster, vcard) as a real client does
         QXmppClient registrar;
@@ -832,7 +830,7 @@ int main(int argc, char **argv)
         std::vector<Work> work;
         for (size_t t = 0; t < templates().size(); t++)
             for (int sh = 0; sh < SH_COUNT; sh++) {
-                if (quick && (sh == SH_DEPTH_UNIT || !quickTemplate(t))) continue;
+                if (quick && sh == SH_DEPTH_UNIT) continue;
                 const auto &sizes = (sh == SH_DEPTH || sh == SH_DEPTH_UNIT) ? depthSizes : sh == SH_CHILDREN ? childSizes : lenSizes;
                 for (int sz : sizes) work.push_back({ W_PROBE, int(t), -1, -1, -1, sh, sz });
             }
@@ -881,7 +879,7 @@ int main(int argc, char **argv)
         long skippedSlow = 0;
         for (size_t t = 0; t < templates().size(); t++)
             for (size_t p = 0; p < g_table.size(); p++) {
-                if (quick && !(std::string(templates()[t].name) == "message" || std::string(templates()[t].name) == "element")) continue;
+                if (quick && !quickTemplate(t)) continue;
                 // only pairs that were admitted in stage 1
                 bool any = false;
                 for (int sh : { SH_DEPTH, SH_DEPTH_UNIT }) any |= timings.count(g_table[p].name + "\t" + templates()[t].name + "\t" + std::to_string(sh)) > 0;
@@ -916,9 +914,9 @@ int main(int argc, char **argv)
         int perSub = std::max(1, g_cfg.perDoc / 6);   // top-level documents get perDoc mutants each, extracted sub-elements perDoc/6
         for (int m = 0; m < g_cfg.perDoc; m++)
             for (size_t i = g_nRegress; i < g_docs.size(); i++)
-                if (i < g_nTop || (m < perSub && (!quick || (i + g_cfg.seed) % 4 == 0))) work.push_back({ W_MUT, int(i), m, cheap[(g++) % cheap.size()], -1, 0, 0 });
+                if (i < g_nTop || m < perSub) work.push_back({ W_MUT, int(i), m, cheap[(g++) % cheap.size()], -1, 0, 0 });
         vh::Rng hr(g_cfg.seed * 77773ull + 5);
-        int quota = g_cfg.heavyQuota >= 0 ? g_cfg.heavyQuota : quick ? 4 : 40;
+        int quota = g_cfg.heavyQuota >= 0 ? g_cfg.heavyQuota : quick ? 8 : 40;
         for (int k : heavy)
             for (int q = 0; q < quota; q++) work.push_back({ W_MUT, int(g_nRegress + hr.below(uint32_t(g_docs.size() - g_nRegress))), 1000 + q, k, -1, 0, 0 });
         runStage("s3", work, 24);
